@@ -64,6 +64,83 @@ def iter_effects(effs, ctx=()):
             yield from iter_effects(e.body, ctx + ((e, None),))
 
 
+def is_term(v):
+    return isinstance(v, tuple) and bool(v) and isinstance(v[0], str)
+
+
+def map_effects(effs, f):
+    """copy of an effect tree with the bottom-up term rewrite f applied to every term it carries"""
+    def mt(v):
+        if is_term(v):
+            return subst(v, f)
+        if isinstance(v, tuple):
+            return tuple(mt(x) for x in v)
+        if isinstance(v, list) and v and all(isinstance(x, Eff) for x in v):
+            return map_effects(v, f)
+        if isinstance(v, list):
+            return [mt(x) for x in v]
+        if isinstance(v, dict):
+            return {k: mt(x) for k, x in v.items()}
+        return v
+    out = []
+    for e in effs:
+        n = Eff.__new__(Eff)
+        for k, v in e.__dict__.items():
+            n.__dict__[k] = v if (k in ('func', 'node', 'returns', 'ctrl') or (k == 'target' and not is_term(v))) else mt(v)
+        out.append(n)
+    return out
+
+
+def leave_of(effs):
+    """(condition under which executing effs leaves the current block by continue / break / return, kinds seen)"""
+    cond, kinds = FALSE, set()
+    for e in effs:
+        if e.kind in ('continue', 'break', 'return'):
+            kinds.add(e.kind)
+            return TRUE, kinds
+        if e.kind == 'if':
+            l1, k1 = leave_of(e.then)
+            l2, k2 = leave_of(e.orelse)
+            kinds |= k1 | k2
+            l = simp(OR(AND(e.cond, l1), AND(NOT(e.cond), l2)))
+            if l == TRUE:
+                return TRUE, kinds
+            cond = simp(OR(cond, l))
+    return cond, kinds
+
+
+def literals_of(g):
+    """conjuncts known true when g holds, as a dict condition -> truth"""
+    out = {}
+    def add(x, val):
+        if x[0] == 'not':
+            add(x[1], not val)
+        elif x[0] == 'bool' and ((x[1] == 'and' and val) or (x[1] == 'or' and not val)):
+            for y in x[2]:
+                add(y, val)
+        else:
+            out[x] = val
+    add(boolify(g), True)
+    return out
+
+
+def refine_env(env, g):
+    """path-sensitive reads: under branch condition g, a value  c ? a : b  whose condition g decides is a (or b)"""
+    lits = None
+    out = {}
+    for k, v in env.items():
+        if v[0] != 'ite':
+            continue
+        if lits is None:
+            lits = literals_of(g)
+        w = v
+        while w[0] == 'ite' and w[1] in lits:
+            w = w[2] if lits[w[1]] else w[3]
+        if w is not v:
+            out[k] = w
+    return out
+
+
 class Frame:
     def __init__(self, func, env):
         self.func = func
@@ -775,15 +852,27 @@ class Interp:
                 e = self.sink[-1]
                 c1, c2 = e.ctrl
                 rest = stmts[i + 1:]
-                if rest and ((c1 and not c2) or (c2 and not c1)):
-                    g = NOT(e.cond) if c1 else e.cond
-                    if (c1 or c2) == 'break':
+                nested = None
+                if rest and not c1 and not c2:
+                    # a branch nested deeper leaves (if a: ... elif b: ... else: continue): the rest runs on the other paths
+                    L, kinds = leave_of([e])
+                    if L not in (FALSE, TRUE) and kinds:
+                        nested = (simp(NOT(L)), 'break' if 'break' in kinds else sorted(kinds)[0])
+                if rest and ((c1 and not c2) or (c2 and not c1) or nested):
+                    g = nested[0] if nested else (NOT(e.cond) if c1 else e.cond)
+                    if ((c1 or c2) if not nested else nested[1]) == 'break':
                         # the rest runs only while the loop has not been left: a PREFIX of the iteration domain, not a filter
                         g = CALL(S('__until_break__'), [g])
                     left = getattr(self, '_left', None)
                     self._left = None
                     fr.guards.append(g)
+                    rr = refine_env(fr.env, g) if g[0] != 'call' else {}
+                    keep = {k: fr.env[k] for k in rr}
+                    fr.env.update(rr)
                     body = self.sub(rest, fr)
+                    for k in rr:
+                        if fr.env.get(k) == rr[k]:
+                            fr.env[k] = keep[k]
                     fr.guards.pop()
                     if left is not None and not fr.ctrl:
                         # the rest ran only under g; where the other branch left by continue / break its state survives
@@ -1062,14 +1151,22 @@ class Interp:
             return self.block(s.orelse, fr)
         pre_env, pre_dd, pre_heap, pre_lp = dict(fr.env), dict(fr.defdepth), dict(self.heap), dict(self.lpstore)
         fr.guards.append(c)
+        r1 = refine_env(fr.env, c)
+        fr.env.update(r1)
         b1 = self.sub(s.body, fr)
         fr.guards.pop()
         e1, d1, h1, c1, l1 = fr.env, fr.defdepth, self.heap, fr.ctrl, self.lpstore
         fr.env, fr.defdepth, self.heap, fr.ctrl, self.lpstore = dict(pre_env), dict(pre_dd), dict(pre_heap), None, dict(pre_lp)
         fr.guards.append(NOT(c))
+        r2 = refine_env(fr.env, NOT(c))
+        fr.env.update(r2)
         b2 = self.sub(s.orelse, fr)
         fr.guards.pop()
         e2, d2, h2, c2, l2 = fr.env, fr.defdepth, self.heap, fr.ctrl, self.lpstore
+        # a variable that was only *read* under the branch condition keeps its value from before the branch
+        for k in set(r1) | set(r2):
+            if e1.get(k) == r1.get(k, pre_env.get(k)) and e2.get(k) == r2.get(k, pre_env.get(k)):
+                e1[k] = e2[k] = pre_env[k]
         lpm = {}
         for k in set(l1) | set(l2):
             a, b = l1.get(k), l2.get(k)
@@ -1146,6 +1243,15 @@ class Interp:
                 elif isinstance(n, ast.Call) and isinstance(n.func, ast.Attribute) and n.func.attr in ('append', 'extend') \
                         and isinstance(n.func.value, ast.Subscript) and isinstance(n.func.value.value, ast.Name):
                     names.add(n.func.value.value.id)
+                if isinstance(n, ast.Call) and any(isinstance(a, ast.Name) for a in n.args):
+                    # a local list handed to a repository function that mutates that parameter in place
+                    fname = n.func.attr if isinstance(n.func, ast.Attribute) else (n.func.id if isinstance(n.func, ast.Name) else None)
+                    cands = list(self.repo.funcs_by_name.get(fname, [])) + [c[fname] for c in self.repo.classes.values() if fname in c] if fname else []
+                    for c in cands:
+                        ps = c.params[1:] if (c.cls and not c.is_static and c.params and isinstance(n.func, ast.Attribute)) else c.params
+                        for p_, a in zip(ps, n.args):
+                            if isinstance(a, ast.Name) and self.really_mutates(c, p_):
+                                names.add(a.id)
         return names
 
     def stored_attrs(self, stmts, seen=None):
